@@ -71,11 +71,11 @@ Fixpoint wf_run_b (sv : server) (evs : list event) : bool :=
 
 Lemma wf_run_b_spec : forall evs sv, wf_run_b sv evs = true -> wf_run fx sv evs.
 Proof.
-  induction evs as [|ev evs IH]; intros sv H; cbn in *; auto.
+  induction evs as [|ev evs IH]; intros sv H; cbn [wf_run_b wf_run] in *; auto.
   apply andb_true_iff in H as [H1 H2]. split; [|now apply IH].
-  destruct ev as [s host nm|s|s c]; cbn in *; auto.
+  destruct ev as [s host nm|s|s c]; cbn [wf_event wf_event_b] in *; auto.
   intros ss Hin E. rewrite forallb_forall in H1. specialize (H1 ss Hin).
-  rewrite E, path_eqb_refl in H1. discriminate.
+  apply negb_true_iff in H1. apply path_eqb_neq in H1. contradiction.
 Qed.
 
 End WfRunB.
